@@ -665,4 +665,293 @@ theorem bid_round64_2_18_spec (qn xn : Nat) (C : UInt64) (hq : 2 ≤ qn) (hq' : 
 example : (Code.bid_round64_2_18 18 3 999999999999999500 false false false false false).toOption =
     some (100000000000000, true, true, false, false, false) := by decide +kernel
 
+/-! ### bid_round128_19_38 -/
+
+theorem tbl128_ok (t : List Nat) (i : Nat) (h : 2 * i + 1 < t.length) (hi : i < 2 ^ 64) :
+    tbl128 t (UInt64.ofNat i) = .ok ⟨UInt64.ofNat (tw t 2 i 0), UInt64.ofNat (tw t 2 i 1)⟩ := by
+  unfold tbl128 tw
+  have : (UInt64.ofNat i).toNat = i := by rw [UInt64.toNat_ofNat']; omega
+  rw [this, List.getElem?_eq_getElem (by omega : 2 * i < t.length), List.getElem?_eq_getElem h]
+  simp only [List.getD_eq_getElem?_getD]
+  rw [show i * 2 + 0 = 2 * i from by omega, show i * 2 + 1 = 2 * i + 1 from by omega,
+    List.getElem?_eq_getElem (by omega : 2 * i < t.length), List.getElem?_eq_getElem h]
+  rfl
+
+/-- a `BID_UINT128` of the translated code as the model's structure of numbers, and back -/
+def n128 (c : Rs.U128) : RH.U128 := ⟨c.w0.toNat, c.w1.toNat⟩
+def u128 (c : RH.U128) : Rs.U128 := ⟨UInt64.ofNat c.w0, UInt64.ofNat c.w1⟩
+def n256 (c : Rs.U256) : RH.U256 := ⟨c.w0.toNat, c.w1.toNat, c.w2.toNat, c.w3.toNat⟩
+
+theorem u128_n128 (c : Rs.U128) : u128 (n128 c) = c := by
+  unfold u128 n128; simp only [UInt64.ofNat_toNat]
+
+def out128 (o : RH.U128 × Bool) (fl : RH.Ind) : Rs.U128 × Bool × Bool × Bool × Bool × Bool :=
+  (u128 o.1, o.2, fl.midLtEven, fl.midGtEven, fl.inexLtMid, fl.inexGtMid)
+
+theorem ite_ok_true (c : Prop) [Decidable c] (b : Bool) :
+    (if c then (Except.ok true : Except String Bool) else Except.ok b) = .ok (decide c || b) := by
+  by_cases h : c <;> simp [h]
+theorem ite_ok_false (c : Prop) [Decidable c] (b : Bool) :
+    (if c then (Except.ok b : Except String Bool) else Except.ok false) = .ok (decide c && b) := by
+  by_cases h : c <;> simp [h]
+
+theorem ofNat_toNat_lt (n : Nat) (h : n < 2 ^ 64) : (UInt64.ofNat n).toNat = n := by
+  rw [UInt64.toNat_ofNat']; exact Nat.mod_eq_of_lt h
+
+theorem u64_shr (a : UInt64) (s : Nat) (hs : s < 2 ^ 64) : (a >>> UInt64.ofNat s).toNat = RH.shr64 a.toNat s := by
+  rw [UInt64.toNat_shiftRight, ofNat_toNat_lt s hs]; rfl
+theorem u64_shl (a : UInt64) (s : Nat) (hs : s < 2 ^ 64) : (a <<< UInt64.ofNat s).toNat = RH.shl64 a.toNat s := by
+  rw [UInt64.toNat_shiftLeft, ofNat_toNat_lt s hs]; rfl
+
+/-- `(64 - shift) as u64` for the left shifts -/
+theorem shift_cast_sub (s : Nat) (h : s ≤ 64) :
+    UInt64.ofInt (toI ((64 : Int32) - Int32.ofInt (toI (UInt32.ofNat s)))) = UInt64.ofNat (64 - s) := by
+  show UInt64.ofInt (Int32.toInt ((64 : Int32) - Int32.ofInt ((UInt32.ofNat s).toNat : Int))) = _
+  have : (UInt32.ofNat s).toNat = s := by rw [UInt32.toNat_ofNat']; omega
+  rw [this, Int32.toInt_sub, Int32.toInt_ofInt_of_le (by omega) (by omega)]
+  have e64 : (64 : Int32).toInt = 64 := rfl
+  rw [e64]
+  have e : ((64 : Int) - (s : Int)) = ((64 - s : Nat) : Int) := by omega
+  rw [e, Int.bmod_eq_of_le (by omega) (by omega), ofInt_natCast]
+
+theorem w_KX128 : C02RoundHelpers.allW BID_KX128 = true := by decide +kernel
+
+theorem ofNat_sub_lit (n k : Nat) (hk : k ≤ n) (hn : n < 2 ^ 64) :
+    UInt64.ofNat n - UInt64.ofNat k = UInt64.ofNat (n - k) := by
+  apply UInt64.toNat_inj.1
+  rw [UInt64.toNat_sub, UInt64.toNat_ofNat', UInt64.toNat_ofNat', UInt64.toNat_ofNat']
+  omega
+
+/-- **Bridge for `bid_round128_19_38`**: for every `(q, x)` of the domain and every coefficient the translated routine
+returns what the model `RH.round128` computes. -/
+theorem bid_round128_19_38_eq (qn xn : Nat) (C : Rs.U128) (hq : 19 ≤ qn) (hq' : qn ≤ 38) (hx : 1 ≤ xn) (hxq : xn + 1 ≤ qn) :
+    Code.bid_round128_19_38 (Int32.ofNat qn) (Int32.ofNat xn) C false false false false false =
+      .ok (u128 (RH.round128 qn xn (n128 C)).cstar, (RH.round128 qn xn (n128 C)).incrExp,
+        (RH.round128 qn xn (n128 C)).ind.midLtEven, (RH.round128 qn xn (n128 C)).ind.midGtEven,
+        (RH.round128 qn xn (n128 C)).ind.inexLtMid, (RH.round128 qn xn (n128 C)).ind.inexGtMid) := by
+  unfold Code.bid_round128_19_38
+  extract_lets qI xI C0 bF P0 Cs0 tmp0 sh0 C1 ind1 t1 ind2 t4 val2 bT jpOvf jpGt val1 jpMul tmpA jpHi
+  have hind2 : ind2 = UInt64.ofNat (qn - xn) := idx_sub qn xn (by omega) (by omega)
+  have hind1 : ind1 = UInt64.ofNat (xn - 1) := idx_sub_one xn hx (by omega)
+  have hn1 : 1 ≤ qn - xn := by omega
+  have hn2 : qn - xn ≤ 37 := by omega
+  have hOvf : ∀ r lt gt ilt igt Cs, jpOvf r lt gt ilt igt Cs =
+      .ok (out128 (RH.r128Ovf qn xn (n128 Cs)) ⟨lt, gt, ilt, igt⟩) := by
+    intro r lt gt ilt igt Cs
+    have e0 : UInt64.ofInt (toI (0 : Nat)) = UInt64.ofNat 0 := rfl
+    have e19 : UInt64.ofInt (toI (19 : Nat)) = UInt64.ofNat 19 := rfl
+    simp only [jpOvf, val2, t4, hind2, bT, bF, e0, e19]
+    unfold out128 RH.r128Ovf n128
+    generalize qn - xn = n at *
+    have hnn : (UInt64.ofNat n).toNat = n := ofNat_toNat_lt n (by omega)
+    have c19 : decide (UInt64.ofNat n ≤ 19) = decide (n ≤ 19) := by
+      rw [u64_dle, hnn]; rfl
+    have c20 : (UInt64.ofNat n == 20) = (n == 20) := by
+      rw [u64_beq, hnn]; rfl
+    simp only [c19, c20]
+    by_cases h19 : n ≤ 19
+    · have e1 : UInt64.ofNat n - 1 = UInt64.ofNat (n - 1) := ofNat_sub_lit n 1 (by omega) (by omega)
+      have l7 := tbl64_ok BID_TEN2K64 n (by simp [BID_TEN2K64]; omega) (by omega)
+      have l8 := tbl64_ok BID_TEN2K64 (n - 1) (by simp [BID_TEN2K64]; omega) (by omega)
+      have b7 := C02RoundHelpers.tw_lt C02RoundHelpers.w_TEN2K64 1 n 0
+      simp only [h19, decide_true, if_true, e1, l7, l8, bind, Except.bind, pure, Except.pure, ite_pure_false, ite_ok_false]
+      simp only [u64_beq, Bool.decide_eq_true, ofNat_toNat_lt _ b7, UInt64.toNat_zero]
+      split <;> simp [u128, UInt64.ofNat_toNat]
+    · by_cases h20 : n = 20
+      · subst h20
+        have l7 := tbl128_ok BID_TEN2K128 0 (by simp [BID_TEN2K128]) (by omega)
+        have l8 := tbl64_ok BID_TEN2K64 19 (by simp [BID_TEN2K64]) (by omega)
+        have b0 := C02RoundHelpers.tw_lt C02RoundHelpers.w_TEN2K128 2 0 0
+        have b1 := C02RoundHelpers.tw_lt C02RoundHelpers.w_TEN2K128 2 0 1
+        simp only [show ¬ (20 ≤ 19) from by omega, decide_false, if_false, BEq.rfl, if_true, l7, l8, bind, Except.bind, pure,
+          Except.pure, ite_pure_false, ite_ok_false, Bool.false_eq_true]
+        simp only [u64_beq, Bool.decide_eq_true, ofNat_toNat_lt _ b0, ofNat_toNat_lt _ b1]
+        split <;> simp [u128, UInt64.ofNat_toNat]
+      · have e20 : UInt64.ofNat n - 20 = UInt64.ofNat (n - 20) := ofNat_sub_lit n 20 (by omega) (by omega)
+        have e21 : UInt64.ofNat n - 21 = UInt64.ofNat (n - 21) := ofNat_sub_lit n 21 (by omega) (by omega)
+        have l7 := tbl128_ok BID_TEN2K128 (n - 20) (by simp [BID_TEN2K128]; omega) (by omega)
+        have l8 := tbl128_ok BID_TEN2K128 (n - 21) (by simp [BID_TEN2K128]; omega) (by omega)
+        have b0 := C02RoundHelpers.tw_lt C02RoundHelpers.w_TEN2K128 2 (n - 20) 0
+        have b1 := C02RoundHelpers.tw_lt C02RoundHelpers.w_TEN2K128 2 (n - 20) 1
+        have hb : (n == 20) = false := by simp [h20]
+        simp only [h19, hb, decide_false, if_false, e20, e21, l7, l8, bind, Except.bind, pure,
+          Except.pure, ite_pure_false, ite_ok_false, Bool.false_eq_true]
+        simp only [u64_beq, Bool.decide_eq_true, ofNat_toNat_lt _ b0, ofNat_toNat_lt _ b1]
+        split <;> simp [u128, UInt64.ofNat_toNat]
+  have hGt : ∀ r Cs, jpGt r Cs = .ok (out128 (RH.r128Ovf qn xn (n128 Cs)) ⟨false, true, false, false⟩) := by
+    intro r Cs; simp only [jpGt, hOvf, bT, bF]
+  have hi : xn - 1 < 37 := by omega
+  obtain ⟨⟨hs1, hs2, hmsk, hhlf, hT, hK, hb⟩, hM, hKlt⟩ := C02RoundHelpers.tbl128 (xn - 1) hi
+  have hs : tw BID_EX128M128 1 (xn - 1) 0 < 2 ^ 31 := by omega
+  have lK := tbl128_ok BID_KX128 (xn - 1) (by simp [BID_KX128]; omega) (by omega)
+  have lE := tbl32_ok BID_EX128M128 (xn - 1) (by simp [BID_EX128M128]; omega) (by omega)
+  have lM := tbl64_ok BID_MASK128 (xn - 1) (by simp [BID_MASK128]; omega) (by omega)
+  have lH := tbl64_ok BID_HALF128 (xn - 1) (by simp [BID_HALF128]; omega) (by omega)
+  have lT := tbl128_ok BID_TEN2MXTRUNC128 (xn - 1) (by simp [BID_TEN2MXTRUNC128]; omega) (by omega)
+  have cv : decide (val1 ≤ 18) = decide (xn - 1 ≤ 18) := by
+    simp only [val1, t1, hind1]; rw [u64_dle, ofNat_toNat_lt _ (by omega)]; rfl
+  by_cases hi18 : xn - 1 ≤ 18
+  · have hMul : ∀ r C' tmp, jpMul r C' tmp =
+        .ok (out128 (RH.r128Ovf qn xn (RH.r128Midpoint (xn - 1)
+              (RH.r128Split (xn - 1) ((n128 C').val * tv BID_KX128 2 (xn - 1))).1
+              (RH.r128Split (xn - 1) ((n128 C').val * tv BID_KX128 2 (xn - 1))).2
+              (RH.r128Inexact (xn - 1) (RH.r128Split (xn - 1) ((n128 C').val * tv BID_KX128 2 (xn - 1))).2)).1)
+            (RH.r128Midpoint (xn - 1)
+              (RH.r128Split (xn - 1) ((n128 C').val * tv BID_KX128 2 (xn - 1))).1
+              (RH.r128Split (xn - 1) ((n128 C').val * tv BID_KX128 2 (xn - 1))).2
+              (RH.r128Inexact (xn - 1) (RH.r128Split (xn - 1) ((n128 C').val * tv BID_KX128 2 (xn - 1))).2)).2) := by
+      intro r C' tmp
+      simp (config := {zeta := false}) only [jpMul, hind1, lK, lE, lM, lH, lT, cv, hi18, decide_true, if_true]
+      simp (config := {zeta := false}) only [bind, Except.bind, mul_128x128_to_256_ok]
+      extract_lets P256 shift jpSplit Cs1 Cs2 f1 f2 f3 f4
+      have bT0 := C02RoundHelpers.tw_lt C02RoundHelpers.w_TRUNC128 2 (xn - 1) 0
+      have bT1 := C02RoundHelpers.tw_lt C02RoundHelpers.w_TRUNC128 2 (xn - 1) 1
+      have bH := C02RoundHelpers.tw_lt C02RoundHelpers.w_HALF128 1 (xn - 1) 0
+      have hSplit : ∀ r fstar Cstar, jpSplit r fstar Cstar =
+          .ok (out128 (RH.r128Ovf qn xn (RH.r128Midpoint (xn - 1) (n128 Cstar) (n256 fstar)
+                (RH.r128Inexact (xn - 1) (n256 fstar))).1)
+              (RH.r128Midpoint (xn - 1) (n128 Cstar) (n256 fstar) (RH.r128Inexact (xn - 1) (n256 fstar))).2) := by
+        intro r fstar Cstar
+        simp (config := {zeta := false}) only [jpSplit]
+        extract_lets CsA CsB jpMid tmp64
+        have hMid : ∀ r ilt igt tmp, jpMid r ilt igt tmp =
+            .ok (out128 (RH.r128Ovf qn xn (RH.r128Midpoint (xn - 1) (n128 Cstar) (n256 fstar) ⟨false, false, ilt, igt⟩).1)
+              (RH.r128Midpoint (xn - 1) (n128 Cstar) (n256 fstar) ⟨false, false, ilt, igt⟩).2) := by
+          intro r ilt igt tmp
+          simp only [jpMid, pure, Except.pure, ite_ok_true, ite_ok_false, hOvf, hGt, bT, bF, CsA, CsB]
+          unfold RH.r128Midpoint n128 n256
+          simp only [u64_beq, u64_dle, u64_dlt, ofNat_toNat_lt _ bT0, ofNat_toNat_lt _ bT1, UInt64.toNat_and,
+            UInt64.toNat_zero, UInt64.toNat_one, Bool.decide_eq_true, u64_sub,
+            show (18446744073709551615 : UInt64).toNat = 18446744073709551615 from rfl]
+          split <;> (try split) <;> (try split) <;> rfl
+        simp only [pure, Except.pure, ite_ok_true, ite_ok_false, hMid, bT, bF, tmp64]
+        unfold RH.r128Inexact n256
+        simp only [hi18, if_true, u64_beq, u64_bne, u64_dle, u64_dlt, ofNat_toNat_lt _ bT0, ofNat_toNat_lt _ bT1,
+          ofNat_toNat_lt _ bH, UInt64.toNat_zero, Bool.decide_eq_true, u64_sub, GT.gt]
+        split <;> (try split) <;> rfl
+      simp only [hSplit]
+      -- the two parts of the product, as the model names them
+      have bK0 := C02RoundHelpers.tw_lt w_KX128 2 (xn - 1) 0
+      have bK1 := C02RoundHelpers.tw_lt w_KX128 2 (xn - 1) 1
+      have hPn : v128 C' * v128 ⟨UInt64.ofNat (tw BID_KX128 2 (xn - 1) 0), UInt64.ofNat (tw BID_KX128 2 (xn - 1) 1)⟩ =
+          (n128 C').val * tv BID_KX128 2 (xn - 1) := by
+        unfold v128 n128 RH.U128.val
+        rw [C02RoundHelpers.tv2]
+        simp only [ofNat_toNat_lt _ bK0, ofNat_toNat_lt _ bK1]
+      generalize hPd : (n128 C').val * tv BID_KX128 2 (xn - 1) = P at *
+      have bM : tw BID_MASK128 1 (xn - 1) 0 < 2 ^ 64 := by
+        have := C02RoundHelpers.pow_le_W _ hs2; omega
+      have hCs : n128 Cs2 = (RH.r128Split (xn - 1) P).1 := by
+        unfold RH.r128Split n128
+        simp only [hi18, if_true, Cs2, Cs1, P256, hPn, shift, shift_cast _ hs, shift_cast_sub (tw BID_EX128M128 1 (xn - 1) 0) (by omega),
+          UInt64.toNat_or, u64_shr _ _ (by omega : tw BID_EX128M128 1 (xn - 1) 0 < 2 ^ 64),
+          u64_shl _ _ (by omega : 64 - tw BID_EX128M128 1 (xn - 1) 0 < 2 ^ 64), wU_toNat, UInt64.toNat_zero]
+      have hf : n256 f4 = (RH.r128Split (xn - 1) P).2 := by
+        unfold RH.r128Split n256
+        simp only [hi18, if_true, f4, f3, f2, f1, P256, hPn, UInt64.toNat_and, wU_toNat, ofNat_toNat_lt _ bM,
+          UInt64.toNat_zero]
+      rw [hCs, hf]
+    have lMid := tbl64_ok BID_MIDPOINT64 (xn - 1) (by simp [BID_MIDPOINT64]; omega) (by omega)
+    have bMid := C02RoundHelpers.tw_lt C02RoundHelpers.w_MIDPOINT64 1 (xn - 1) 0
+    simp only [cv, hi18, decide_true, if_true, hind1, lMid, bind, Except.bind, hMul, tmpA, C1, C0]
+    rw [C02RoundHelpers.round128_unfold]
+    simp only [Nat.add_sub_cancel]
+    unfold RH.r128AddMid
+    simp only [hi18, if_true, n128, u64_dlt, u64_add, ofNat_toNat_lt _ bMid, UInt64.toNat_one, decide_eq_true_eq]
+    split <;> rename_i h <;> simp only [h, if_true, if_false] <;> rfl
+  · have hMul : ∀ r C' tmp, jpMul r C' tmp =
+        .ok (out128 (RH.r128Ovf qn xn (RH.r128Midpoint (xn - 1)
+              (RH.r128Split (xn - 1) ((n128 C').val * tv BID_KX128 2 (xn - 1))).1
+              (RH.r128Split (xn - 1) ((n128 C').val * tv BID_KX128 2 (xn - 1))).2
+              (RH.r128Inexact (xn - 1) (RH.r128Split (xn - 1) ((n128 C').val * tv BID_KX128 2 (xn - 1))).2)).1)
+            (RH.r128Midpoint (xn - 1)
+              (RH.r128Split (xn - 1) ((n128 C').val * tv BID_KX128 2 (xn - 1))).1
+              (RH.r128Split (xn - 1) ((n128 C').val * tv BID_KX128 2 (xn - 1))).2
+              (RH.r128Inexact (xn - 1) (RH.r128Split (xn - 1) ((n128 C').val * tv BID_KX128 2 (xn - 1))).2)).2) := by
+      intro r C' tmp
+      simp (config := {zeta := false}) only [jpMul, hind1, lK, lE, lM, lH, lT, cv, hi18, decide_false, if_false, Bool.false_eq_true]
+      simp (config := {zeta := false}) only [bind, Except.bind, mul_128x128_to_256_ok]
+      extract_lets P256 shift jpSplit Cs1 Cs2 f1 f2 f3 f4
+      have bT0 := C02RoundHelpers.tw_lt C02RoundHelpers.w_TRUNC128 2 (xn - 1) 0
+      have bT1 := C02RoundHelpers.tw_lt C02RoundHelpers.w_TRUNC128 2 (xn - 1) 1
+      have bH := C02RoundHelpers.tw_lt C02RoundHelpers.w_HALF128 1 (xn - 1) 0
+      have hSplit : ∀ r fstar Cstar, jpSplit r fstar Cstar =
+          .ok (out128 (RH.r128Ovf qn xn (RH.r128Midpoint (xn - 1) (n128 Cstar) (n256 fstar)
+                (RH.r128Inexact (xn - 1) (n256 fstar))).1)
+              (RH.r128Midpoint (xn - 1) (n128 Cstar) (n256 fstar) (RH.r128Inexact (xn - 1) (n256 fstar))).2) := by
+        intro r fstar Cstar
+        simp (config := {zeta := false}) only [jpSplit]
+        extract_lets CsA CsB jpMid tmp64
+        have hMid : ∀ r ilt igt tmp, jpMid r ilt igt tmp =
+            .ok (out128 (RH.r128Ovf qn xn (RH.r128Midpoint (xn - 1) (n128 Cstar) (n256 fstar) ⟨false, false, ilt, igt⟩).1)
+              (RH.r128Midpoint (xn - 1) (n128 Cstar) (n256 fstar) ⟨false, false, ilt, igt⟩).2) := by
+          intro r ilt igt tmp
+          simp only [jpMid, pure, Except.pure, ite_ok_true, ite_ok_false, hOvf, hGt, bT, bF, CsA, CsB]
+          unfold RH.r128Midpoint n128 n256
+          simp only [u64_beq, u64_dle, u64_dlt, ofNat_toNat_lt _ bT0, ofNat_toNat_lt _ bT1, UInt64.toNat_and,
+            UInt64.toNat_zero, UInt64.toNat_one, Bool.decide_eq_true, u64_sub,
+            show (18446744073709551615 : UInt64).toNat = 18446744073709551615 from rfl]
+          split <;> (try split) <;> (try split) <;> rfl
+        simp only [pure, Except.pure, ite_ok_true, ite_ok_false, hMid, bT, bF, tmp64]
+        unfold RH.r128Inexact n256
+        simp only [hi18, if_false, u64_beq, u64_bne, u64_dle, u64_dlt, ofNat_toNat_lt _ bT0, ofNat_toNat_lt _ bT1,
+          ofNat_toNat_lt _ bH, UInt64.toNat_zero, Bool.decide_eq_true, u64_sub, GT.gt]
+        split <;> (try split) <;> rfl
+      simp only [hSplit]
+      -- the two parts of the product, as the model names them
+      have bK0 := C02RoundHelpers.tw_lt w_KX128 2 (xn - 1) 0
+      have bK1 := C02RoundHelpers.tw_lt w_KX128 2 (xn - 1) 1
+      have hPn : v128 C' * v128 ⟨UInt64.ofNat (tw BID_KX128 2 (xn - 1) 0), UInt64.ofNat (tw BID_KX128 2 (xn - 1) 1)⟩ =
+          (n128 C').val * tv BID_KX128 2 (xn - 1) := by
+        unfold v128 n128 RH.U128.val
+        rw [C02RoundHelpers.tv2]
+        simp only [ofNat_toNat_lt _ bK0, ofNat_toNat_lt _ bK1]
+      generalize hPd : (n128 C').val * tv BID_KX128 2 (xn - 1) = P at *
+      have bM : tw BID_MASK128 1 (xn - 1) 0 < 2 ^ 64 := by
+        have := C02RoundHelpers.pow_le_W _ hs2; omega
+      have hCs : n128 Cs2 = (RH.r128Split (xn - 1) P).1 := by
+        unfold RH.r128Split n128
+        simp only [hi18, if_false, Cs2, Cs1, P256, hPn, shift, shift_cast _ hs, shift_cast_sub (tw BID_EX128M128 1 (xn - 1) 0) (by omega),
+          UInt64.toNat_or, u64_shr _ _ (by omega : tw BID_EX128M128 1 (xn - 1) 0 < 2 ^ 64),
+          u64_shl _ _ (by omega : 64 - tw BID_EX128M128 1 (xn - 1) 0 < 2 ^ 64), wU_toNat, UInt64.toNat_zero]
+      have hf : n256 f4 = (RH.r128Split (xn - 1) P).2 := by
+        unfold RH.r128Split n256
+        simp only [hi18, if_false, f4, f3, f2, f1, P256, hPn, UInt64.toNat_and, wU_toNat, ofNat_toNat_lt _ bM,
+          UInt64.toNat_zero]
+      rw [hCs, hf]
+    have e19 : UInt64.ofNat (xn - 1) - 19 = UInt64.ofNat (xn - 1 - 19) := ofNat_sub_lit _ 19 (by omega) (by omega)
+    have lMid := tbl128_ok BID_MIDPOINT128 (xn - 1 - 19) (by simp [BID_MIDPOINT128]; omega) (by omega)
+    have bMid0 := C02RoundHelpers.tw_lt C02RoundHelpers.w_MIDPOINT128 2 (xn - 1 - 19) 0
+    have bMid1 := C02RoundHelpers.tw_lt C02RoundHelpers.w_MIDPOINT128 2 (xn - 1 - 19) 1
+    simp only [cv, hi18, decide_false, if_false, Bool.false_eq_true, hind1, e19, lMid, bind, Except.bind, jpHi, hMul, tmpA,
+      C1, C0]
+    rw [C02RoundHelpers.round128_unfold]
+    simp only [Nat.add_sub_cancel]
+    unfold RH.r128AddMid
+    simp only [hi18, if_false, n128, u64_dlt, u64_add, ofNat_toNat_lt _ bMid0, ofNat_toNat_lt _ bMid1, UInt64.toNat_one,
+      decide_eq_true_eq]
+    split <;> rename_i h <;> simp only [h, if_true, if_false] <;> rfl
+
+
+/-- **`bid_round128_19_38` as translated meets the specification** (`19 ≤ q ≤ 38`, `1 ≤ x ≤ q − 1`, `C < 10^q`). -/
+theorem bid_round128_19_38_spec (qn xn : Nat) (C : Rs.U128) (hq : 19 ≤ qn) (hq' : qn ≤ 38) (hx : 1 ≤ xn)
+    (hxq : xn + 1 ≤ qn) (hC : v128 C < 10 ^ qn) :
+    ∃ (cs : Rs.U128) (incr lt gt ilt igt : Bool),
+      Code.bid_round128_19_38 (Int32.ofNat qn) (Int32.ofNat xn) C false false false false false =
+        .ok (cs, incr, lt, gt, ilt, igt) ∧
+      C02RoundHelpers.Spec qn xn (v128 C) (v128 cs) incr ⟨lt, gt, ilt, igt⟩ := by
+  have hv : (n128 C).val = v128 C := rfl
+  obtain ⟨hs, hb0, hb1⟩ := C02RoundHelpers.round128_spec qn xn (n128 C) hq hq' hx hxq C.w0.toNat_lt C.w1.toNat_lt
+    (by rw [hv]; exact hC)
+  refine ⟨_, _, _, _, _, _, bid_round128_19_38_eq qn xn C hq hq' hx hxq, ?_⟩
+  have : v128 (u128 (RH.round128 qn xn (n128 C)).cstar) = (RH.round128 qn xn (n128 C)).cstar.val := by
+    unfold v128 u128 RH.U128.val
+    simp only [ofNat_toNat_lt _ hb0, ofNat_toNat_lt _ hb1]
+  rw [this, ← hv]
+  exact hs
+
+-- q = 35, x = 1 (the call at line 2720 of bid128_fma.rs), C = 10^35 − 5 through the translated routine
+example : (Code.bid_round128_19_38 35 1 ⟨wU (10 ^ 35 - 5) 0, wU (10 ^ 35 - 5) 1⟩ false false false false false).toOption =
+    some (⟨wU (10 ^ 33) 0, wU (10 ^ 33) 1⟩, true, true, false, false, false) := by decide +kernel
+
 end Dec.C02GenRound
